@@ -52,6 +52,13 @@ def landscaper_history(draw, max_ops=8):
         if i == 0 and draw(st.booleans()):
             op = "fit_transform"
         case["ops"].append({"op": op, "X": draw(dgm_list())})
+    if fixed != "none" and draw(st.integers(0, 2)) == 0:
+        # relation between parameters and data: the user-fixed bound coincides exactly with the extreme of one fit's data
+        k = draw(st.integers(0, len(case["ops"]) - 1))
+        X = case["ops"][k]["X"][case["hom_deg"]]
+        case["start"] = min(b for b, _ in X)
+        case["stop"] = max(d for _, d in X)
+        case["coincides_with_op"] = k
     return case
 
 
@@ -141,7 +148,8 @@ def run_landscaper(case, ctx):
                             % (step, ws, wt, n, est.start, est.stop))
         else:
             ctx.skip("unknown op (shrinker)")
-    ctx.label("fixed:" + case["fixed"], "fits=%d" % min(n_fits, 4), "refit_different_extent" if len(extents) >= 2 else None)
+    ctx.label("fixed:" + case["fixed"], "fits=%d" % min(n_fits, 4), "refit_different_extent" if len(extents) >= 2 else None,
+              "fixed_bound_equals_a_data_extreme" if "coincides_with_op" in case else None)
     ctx.nontrivial(len(extents) >= 2 and saw_transform_between and case["ops"][-1]["op"] != "fit")
 
 
